@@ -182,7 +182,8 @@ class CDF(keras.layers.Layer):
     # If the type is "learned_*" then input scaling will be a variable weight
     # that is constrained depending on the monotonicity specified.
     if self.input_scaling_type == "fixed":
-      self.input_scaling = tf.constant(self.input_scaling_init)
+      self.input_scaling = tf.constant(self.input_scaling_init,
+                                       dtype=self.dtype)
     elif self.input_scaling_type == "learned_shared":
       self.input_scaling = self.add_weight(
           "input_scaling",
